@@ -12,6 +12,8 @@ RULE = (
     "Triples of kinds over random feature subsets valid for their version (deprecated features in >=30% of draws), "
     "versions 1,2,3 and unspecified; the 2nd/3rd kind are biased to be near the 1st (one feature apart / differing only "
     "in deprecated features / superset).  Every operation runs on fresh clones with feature snapshots before/after.  "
+    "Second part: kinds reached through histories of <= 14 set_* / unset_* calls interleaved with reads (version, hash, ==, <=): "
+    "the result must be ==, <= both ways, equally hashed and equally versioned as a kind built afresh from the same features.  "
     "Non-trivial = triple containing a pair related by <= with different feature sets, or differing only in deprecated "
     "features, or of different versions; distinct by (features, version) of the triple."
 )
@@ -222,9 +224,104 @@ def strategy():
     return triple()
 
 
+def history_strategy():
+    feats = all_features()
+    op = st.one_of(
+        st.tuples(st.just("set"), st.sampled_from(feats)),
+        st.tuples(st.just("unset"), st.sampled_from(feats)),
+        st.tuples(st.just("unset-present"), st.integers(0, 30)),
+        st.tuples(st.just("read"), st.sampled_from(["version", "hash", "eq", "le", "features"])),
+        st.tuples(st.just("read"), st.sampled_from(["version", "hash", "eq", "le"])),
+    )
+    return st.fixed_dictionaries(
+        {
+            "start": st.lists(st.sampled_from(feats), max_size=4).map(sorted),
+            "version": st.sampled_from([None, None, None, 1, 2, 3]),
+            "ops": st.lists(op, min_size=2, max_size=14).map(lambda l: [list(o) for o in l]),
+        }
+    )
+
+
+def history_oracle_factory(ctx):
+    from unified_planning.model import ProblemKind
+    from unified_planning.model.problem_kind import FEATURES
+
+    cat = {}
+    for c, fs in FEATURES.items():
+        for f in fs:
+            cat[f] = c.lower()
+
+    def oracle(case):
+        """a kind reached through a history of set_* / unset_* calls interleaved with reads must be
+        indistinguishable from a kind freshly built from the same features and declared version"""
+        v = case["version"]
+        start = [f for f in case["start"] if v is None or added(f) <= v]
+        try:
+            k = ProblemKind(start, v)
+        except Exception:
+            return
+        shrank_after_read = False
+        read_seen = False
+        for o in case["ops"]:
+            if o[0] == "read":
+                read_seen = True
+                if o[1] == "version":
+                    k.version
+                elif o[1] == "hash":
+                    hash(k)
+                elif o[1] == "eq":
+                    k == ProblemKind(sorted(k.features), v)
+                elif o[1] == "le":
+                    k <= ProblemKind(sorted(k.features), v)
+                else:
+                    set(k.features)
+                continue
+            f = o[1]
+            if o[0] == "unset-present":
+                present = sorted(k.features)
+                if not present:
+                    continue
+                f = present[o[1] % len(present)]
+            try:
+                if o[0] == "set":
+                    getattr(k, "set_" + cat[f])(f)
+                else:
+                    if f in k.features and read_seen:
+                        shrank_after_read = True
+                    getattr(k, "unset_" + cat[f])(f)
+            except Exception:
+                continue  # a feature the declared version does not allow, ...: rejected calls are not the subject
+        try:
+            fresh = ProblemKind(sorted(k.features), v)
+        except Exception:
+            return
+        desc = f"kind reached by {case['ops']} from {start} (declared version {v})"
+        if k.version != fresh.version:
+            raise Violation("history:version-differs", f"{desc}: version {k.version}, a fresh kind with the same features has {fresh.version}", case)
+        if not (k == fresh) or not (fresh == k):
+            raise Violation("history:not-equal-to-fresh", f"{desc}: not == to a fresh kind with the same features {sorted(k.features)}", case)
+        if not (k <= fresh and fresh <= k):
+            raise Violation("history:not-le-fresh", f"{desc}: <= does not hold both ways against a fresh kind with the same features", case)
+        if hash(k) != hash(fresh):
+            raise Violation("history:hash-differs", f"{desc}: == to a fresh kind with the same features but hashes differ", case)
+        ctx.cls("history")
+        if shrank_after_read:
+            ctx.cls("history:unset-after-read")
+            ctx.nontriv(["history", case["start"], case["version"], case["ops"]])
+
+    return oracle
+
+
 def shard(ctx):
     ctx.run_hypothesis(strategy(), oracle_factory(ctx), ctx.scale(20000, 1000000))
+    global ALL
+    ALL = all_features()
+    ctx.run_hypothesis(history_strategy(), history_oracle_factory(ctx), ctx.scale(12000, 300000), salt=1)
 
 
 def replay(ctx, case):
+    if "ops" in case:
+        global ALL
+        ALL = all_features()
+        return history_oracle_factory(ctx)(case)
     oracle_factory(ctx)(case)
